@@ -295,6 +295,57 @@ pub fn c08(c: &mut Ctx, b: &Budget) {
             let v = c.val(&enc).show();
             c.check("encrypt-refusal-justified", refusable, "encrypt-refusal", || format!("{} for {}", v, shape(&orig)));
         }
+        // content that already holds obscured elements - an assertion (or the subject) encrypted under ANOTHER key, compressed or
+        // elided - goes into the ciphertext as it stands and comes out as it went in (decryption is a decoder)
+        if orig.is_node() && i % 2 == 0 {
+            let na = orig.assertions().len();
+            let k = c.rng.below(na);
+            let t = c.assign(&format!("at {} a{}", e, k));
+            let act = match c.rng.below(4) { 0 | 1 => format!("encrypt:{}", KEY2), 2 => "compress".to_string(), _ => "elide".to_string() };
+            let pre = c.assign(&format!("elide_set {} rem {} {}", e, act, t));
+            if let Some(pe) = c.env(&pre) {
+                c.count(&format!("branch:pre-obscured-assertion:{}", &act[..5]));
+                let nn = hex::encode(c.rng.bytes(12));
+                let we = c.assign(&format!("encrypt {} {} {}", pre, KEY1, nn));
+                let wd = c.assign(&format!("decrypt {} {}", we, KEY1));
+                c.obs(&format!("eq {} {}", pre, wd));
+                match c.env(&wd) { Some(d) => c.check("whole-roundtrip", d.is_identical_to(&pe), "whole-roundtrip", || format!("{} -> {}", shape(&pe), shape(&d))),
+                    None => { let v = c.val(&wd).show(); c.check("whole-roundtrip", false, "whole-roundtrip", || format!("{} for {}", v, shape(&pe))) } }
+                // the same as the wrapped subject of a node, through decrypt_subject
+                let w = c.assign(&format!("wrap {}", pre));
+                let a = gen_assertion(c, &cfg, 0);
+                let host = c.assign(&format!("add {} {}", w, a));
+                let nn = hex::encode(c.rng.bytes(12));
+                let he = c.assign(&format!("encrypt_subject {} {} {}", host, KEY1, nn));
+                let hd = c.assign(&format!("decrypt_subject {} {}", he, KEY1));
+                c.obs(&format!("eq {} {}", host, hd));
+                if let Some(hh) = c.env(&host) {
+                    match c.env(&hd) { Some(d) => c.check("decrypt-identical", d.is_identical_to(&hh), "decrypt-identical", || format!("{} -> {}", shape(&hh), shape(&d))),
+                        None => { let v = c.val(&hd).show(); c.check("decrypt-identical", false, "decrypt-identical", || format!("{} for {}", v, shape(&hh))) } }
+                }
+            }
+        }
+        // mis-declared digests through the whole-envelope door: the content is a wrapped envelope, opened with decrypt()
+        {
+            let wa = c.assign(&format!("wrap {}", e));
+            let other = gen_env(c, &cfg, 1);
+            let wb = c.assign(&format!("wrap {}", other));
+            let nn = hex::encode(c.rng.bytes(12));
+            if c.env(&wa).zip(c.env(&wb)).map(|(x, y)| x.digest() != y.digest()).unwrap_or(false) {
+                let md = c.assign(&format!("misdeclare {} {} {} {}", wa, wb, KEY1, nn));
+                for host in [md.clone(), { let a = gen_assertion(c, &cfg, 0); c.assign(&format!("add {} {}", md, a)) }] {
+                    let d = c.assign(&format!("decrypt {} {}", host, KEY1));
+                    let ok = c.is_ok(&d);
+                    c.check("misdeclared-rejected", !ok, "misdeclared-rejected", || "decrypt() accepted wrapped content that does not hash to the declared digest".into());
+                }
+                let kk = c.rng.below(32);
+                let mn = c.assign(&format!("misdeclare_near {} {} {} {}", wa, kk, KEY1, nn));
+                let d = c.assign(&format!("decrypt {} {}", mn, KEY1));
+                let ok = c.is_ok(&d);
+                c.check("misdeclared-rejected", !ok, "misdeclared-rejected", || format!("decrypt() accepted wrapped content declared under its digest with byte {} changed", kk));
+                c.count("branch:misdeclared-through-decrypt");
+            }
+        }
         // whole-envelope form
         let n2 = hex::encode(c.rng.bytes(12));
         let we = c.assign(&format!("encrypt {} {} {}", e, KEY1, n2));
